@@ -763,7 +763,8 @@ struct Engine : public vf::Engine {
             }
             case H_DESIGNATE_N: {
                 bool clash = false; for (size_t i = 0; i < W.desig.size(); i++) if (!W.desig[i].byLoc && W.desig[i].n == (int)o.a) clash = true;
-                if (clash || (int)o.a <= W.failIndex) break;    // never two designations of one allocation; an index already passed is not generated
+                if (clash) break;    // never two designations of one allocation; an index already passed is legal: it never fires and stays pending
+                if ((int)o.a <= W.failIndex) fired("designate_index_already_passed");
                 failable.failAllocNumber((int)o.a);
                 World::Desig g; g.byLoc = false; g.n = (int)o.a; g.line = 0; g.seen = 0; W.desig.push_back(g); fired("designate_global_index");
                 break;
